@@ -4,8 +4,8 @@ import common
 
 PROPS = "RotoV.Props.C15"
 MODULES = ["RotoV.Lemmas.ListCap", "RotoV.Lemmas.ListRaw", "RotoV.Lemmas.ListInv", "RotoV.Lemmas.ListRefine", "RotoV.Lemmas.ListNested",
-           "RotoV.Lemmas.ListJoin", "RotoV.Lemmas.ListFor", "RotoV.Lemmas.ListSelfEq",
-           "RotoV.Model.ListM", "RotoV.Model.ListBase", "RotoV.Model.ListFor"]
+           "RotoV.Lemmas.ListJoin", "RotoV.Lemmas.ListFor", "RotoV.Lemmas.ListSelfEq", "RotoV.Lemmas.ListIter",
+           "RotoV.Model.ListM", "RotoV.Model.ListBase", "RotoV.Model.ListFor", "RotoV.Model.ListIter"]
 
 
 def search(ctx):
@@ -19,7 +19,7 @@ def search(ctx):
 
 
 def run(ctx):
-    ctx.extract(["capacity", "listlocks", "listguards", "listjoin", "listfor"])
+    ctx.extract(["capacity", "listlocks", "listguards", "listjoin", "listfor", "listiter"])
     ctx.prove(PROPS, extra_modules=MODULES)
     if ctx.build_harness("c15"):
         ctx.harness("c15", ["run", ctx.seed, ctx.tier], timeout=3000)
